@@ -437,6 +437,45 @@ theorem C19_sequences (W n : Nat) (hW : 0 < W) (hn : 0 < n) (ops : List Op) (a' 
 example : specRun 8 4 0 [.assign 8 200, .bop .add 8 255, .mul 200, .div 9, .cmp .gt 9, .flb]
     = some (10111, [.none, .none, .none, .nat 1, .bool true, .nat 13]) := by decide
 
+/-! ### Signed operand types
+
+A non-negative operand of a signed type is the same integer.  A **negative** operand has no meaning as an
+integer for an unsigned big number; what the (repaired) code does is well defined and in bounds: the operand
+acts as `signedOperand W K x` = its two's-complement value at width `max K W` (`Number_T(number)` sign-extends
+to the word, the bounded chunk loop walks the operand's own width).  The exactness theorem applies to that
+value. -/
+
+theorem signedOperand_nonneg (W K : Nat) (x : Int) (h0 : 0 ≤ x) (hx : x < 2 ^ K) :
+    signedOperand W K x = x.toNat := by
+  unfold signedOperand
+  have hle : (2 : Int) ^ K ≤ (2 : Int) ^ max K W := by
+    exact_mod_cast Nat.pow_le_pow_right (by decide : 0 < 2) (Nat.le_max_left K W)
+  have : x < (2 : Int) ^ max K W := Int.lt_of_lt_of_le hx hle
+  rw [Int.emod_eq_of_lt h0 this]
+
+theorem signedOperand_lt (W K : Nat) (x : Int) : signedOperand W K x < 2 ^ max K W := by
+  unfold signedOperand
+  have hpos : (0 : Int) < (2 : Int) ^ max K W := Int.pow_pos (by decide)
+  have h1 := Int.emod_lt_of_pos x hpos
+  have h0 := Int.emod_nonneg x (Int.ne_of_gt hpos)
+  have h2 : x % (2 : Int) ^ max K W < ((2 ^ max K W : Nat) : Int) := by push_cast; exact h1
+  omega
+
+theorem typeOK_max (W K : Nat) (hW : 0 < W) (h : TypeOK W K) : TypeOK W (max K W) := by
+  rcases h with h | ⟨h1, h2⟩
+  · left; rw [Nat.max_eq_right h]
+  · have : W ≤ K := Nat.le_of_dvd (by
+      rcases Nat.eq_zero_or_pos K with h0 | h0
+      · rw [h0] at h2; simp at h2
+      · exact h0) h1
+    right; rw [Nat.max_eq_left this]; exact ⟨h1, h2⟩
+
+/-- `+= -= |= &=` with any (also negative) operand of a signed `K`-bit type: exact for the value the
+operand denotes, in bounds, invariant kept. -/
+theorem C19_signed (c : Cfg) (hg : GoodCfg c) (op : BOp) (K : Nat) (x : Int) (ht : TypeOK c.W K) :
+    StepExact c (.bop op (max K c.W) (signedOperand c.W K x)) :=
+  C19 c hg _ (typeOK_max c.W K hg.1 ht)
+
 /-! ### Two objects of one instantiation: copy and move assignment -/
 
 /-- The exact-integer meaning of a sequence over two objects holding `a` and `b`. -/
